@@ -57,6 +57,7 @@ func cases(run *vf.Run) ([]json.RawMessage, error) {
 		// page sizes and auto_vacuum cells rotate deterministically so every cell is hit
 		cfg.PageSize = hist.PageSizes[i%len(hist.PageSizes)]
 		cfg.AutoVacuum = (i / len(hist.PageSizes)) % 3
+		cfg.SecureDelete = i%5 == 1 // freed pages zero-filled: databases that contain and end in all-zero pages
 		s := spec{Seed: vf.SubSeed(run.Seed, "C01-case", i), Ops: 30 + rng.Intn(50), Cfg: cfg, Daemon: i%4 == 3}
 		out = append(out, vf.Spec(s))
 	}
